@@ -449,6 +449,8 @@ class ApiRig:
             t.cancel()
             self.loop.settle()
             return ("hang", None)
+        if t.cancelled():
+            return ("exc", "CancelledError")
         if t.exception() is not None:
             return ("exc", type(t.exception()).__name__)
         return ("ok", t.result())
